@@ -31,7 +31,9 @@ Print Assumptions C01_agreement_dtls13.
 Theorem C01_agreement :
   forall ck sk seeded o x p,
     ems_valid (k_cfg sk) -> negotiate_conn ck sk seeded = Ok o ->
-    exists h f, pion_hello ck h /\ mirrored (client_view h o x) (server_view h f x p).
+    exists h f ss, pion_hello ck h /\
+      (server13 sk ss h = ROk f \/ server12 sk ss h seeded = ROk f) /\
+      mirrored (client_view h o x) (server_view h f x p).
 Proof. exact agreement. Qed.
 Print Assumptions C01_agreement.
 
